@@ -133,7 +133,7 @@ def strip(n):
         if k in ("ParenExpr", "ExprWithCleanups", "MaterializeTemporaryExpr", "CXXBindTemporaryExpr", "ConstantExpr"):
             n = kids(n)[0]
         elif k == "ImplicitCastExpr" and n.get("castKind") in (
-                "LValueToRValue", "NoOp", "IntegralCast", "FunctionToPointerDecay", "IntegralToBoolean",
+                "LValueToRValue", "NoOp", "IntegralCast", "FunctionToPointerDecay",
                 "UserDefinedConversion", "ArrayToPointerDecay", "DerivedToBase", "UncheckedDerivedToBase"):
             n = kids(n)[0]
         elif k in ("CStyleCastExpr", "CXXStaticCastExpr", "CXXFunctionalCastExpr") and n.get("castKind") in ("IntegralCast", "NoOp"):
@@ -234,6 +234,10 @@ class Tr:
                 return self.atom_key(strip(ks[1]))
         if k == "UnaryOperator" and n.get("opcode") == "*":
             return self.atom_key(strip(kids(n)[0]))
+        if k == "CallExpr" and len(kids(n)) == 1:
+            callee = strip(kids(n)[0])
+            if callee.get("kind") == "DeclRefExpr":
+                return callee["referencedDecl"]["name"] + "()"
         return None
 
     def lookup(self, key, n):
@@ -247,6 +251,8 @@ class Tr:
     def expr(self, n):
         n = strip(n)
         k = n.get("kind")
+        if k == "ImplicitCastExpr" and n.get("castKind") == "IntegralToBoolean":
+            return "(%s ≠ 0)" % self.expr(kids(n)[0])
         if k == "IntegerLiteral":
             return str(int(n["value"]))
         if k == "CXXBoolLiteralExpr":
@@ -263,6 +269,10 @@ class Tr:
                 if m:
                     return m.group(1)
             raise ExtractError("unsupported sizeof")
+        if k == "UnaryOperator" and n.get("opcode") == "*":
+            key = self.atom_key(n)
+            if key is not None:
+                return self.lookup(key, n)
         if k == "UnaryOperator":
             op = n["opcode"]
             a = self.expr(kids(n)[0])
